@@ -604,6 +604,11 @@ func (g *G) anyExpr(t cty.Type, depth int, locals []Decl) *E {
 			}
 		case 1:
 			if isStr {
+				if !g.O.Simple && g.coin(0.25) {
+					// a namespaced function; blanks around "::" are legal
+					name := []string{"ns::fn", "ns:: fn", "ns ::fn", "ns :: fn"}[g.pick(4)]
+					return raw(name + "(" + n(cty.String) + ")")
+				}
 				return raw("upper(" + n(cty.String) + ")")
 			}
 		case 2:
